@@ -302,7 +302,7 @@ Lemma run_IMG cs : forall d d', IMG d -> rrun cs d = Some d' -> IMG d'.
 Proof.
   induction cs as [|c r IH]; simpl; intros d d' G R.
   - inversion R; subst. exact G.
-  - destruct (rstep c d) as [d1|] eqn:E; [|discriminate]. eapply IH; eauto. eapply step_IMG; eauto.
+  - destruct (rstep c d) as [d1|] eqn:E; [|discriminate]. apply (IH d1 d'); [eapply step_IMG; eauto|exact R].
 Qed.
 Lemma doc_wf_IMG d : doc_wf d = true -> IMG d.
 Proof.
